@@ -799,3 +799,30 @@ Proof.
   - intros i j a b Hij Ha Hb. apply level_y_idx in Ha. apply level_y_idx in Hb.
     unfold key_lt. rewrite Ha, Hb. lia.
 Qed.
+
+(* ------------------------------------------------------------------ *)
+(* round 4 (review): completeness under the per-value domain hypothesis *)
+
+Lemma is_peak_complete_dom : forall m thr y x v,
+  in_value_domain v -> thr < v -> strict_local_max m y x v -> is_peak m thr y x v = true.
+Proof. intros m thr y x v [Hb _]. now apply is_peak_complete. Qed.
+
+Lemma rough_complete_dom : forall cms thr C H W x y v s c m, dims cms = (C, H, W) ->
+  rect C H W cms -> map_at cms s c = Some m -> in_value_domain v -> spec_peak m thr y x v ->
+  In (x, y, v, s, c) (local_peaks_rough cms thr).
+Proof. intros until m. intros Hd HR Hm [Hb _]. now apply (rough_complete _ _ _ _ _ _ _ _ _ _ _ Hd HR Hm). Qed.
+
+Lemma rough_iff_dom : forall cms thr C H W, dims cms = (C, H, W) -> rect C H W cms ->
+  forall x y v s c, in_value_domain v ->
+  (In (x, y, v, s, c) (local_peaks_rough cms thr) <->
+   exists m, map_at cms s c = Some m /\ spec_peak m thr y x v).
+Proof.
+  intros cms thr C H W Hd HR x y v s c Hv. split.
+  - apply (rough_sound _ _ _ _ _ _ _ _ _ _ Hd).
+  - intros [m [Hm Hs]]. eapply rough_complete_dom; eauto.
+Qed.
+
+Lemma ex_value_domain : in_value_domain 3 /\ in_value_domain VMAX /\ ~ in_value_domain BORDER.
+Proof.
+  unfold in_value_domain, VMAX, BORDER. repeat split; unfold Qlt, Qle; simpl; lia.
+Qed.
